@@ -1,6 +1,7 @@
 import Dmn.Lemmas.EvalM
 import Dmn.Lemmas.Ops
 import Dmn.Props.C13
+import Dmn.Lemmas.Iter
 
 /-!
 # C01 — FEEL core expressions evaluate to the value the FEEL semantics assigns
@@ -236,3 +237,183 @@ example :
         ⟨false, 1, 1⟩ = .bool true := by rfl
 
 end Dmn.Eval
+
+
+/-!
+## The iteration engine visits exactly the cartesian product
+
+`Iter.run` is the literal transcription of `FeelIterator::run` (reversed state list, persistent
+iteration context filled outermost variable first, increment with carry, fuel).  For states as
+the evaluator creates them (`Iter.Fresh`: a non-empty list, or a range between two `isize`
+values) it returns — without running out of fuel — the contexts of the declarative product
+`Iter.product`: first state outermost, in order, an inner variable shadowing an outer one of
+the same name.  Lemmas in `Dmn/Lemmas/Iter.lean`.
+-/
+
+namespace Dmn.Iter
+
+/-- The empty iterator calls the handler never (while the empty product is `[[]]`). -/
+theorem run_nil : run [] = .ok [] := rfl
+
+/-- **Main theorem.** On a non-empty list of `Fresh` states the state machine visits the full
+cartesian product, first state outermost, in order; `fuelFor` suffices (never `.diverge`), and
+it never panics.  No assumption on the names: with the outermost-first `fill`, an inner variable
+overwrites an outer one of the same name, exactly as `product` prescribes. -/
+theorem run_eq_product (states : List State) (hne : states ≠ [])
+    (hfresh : ∀ st ∈ states, Fresh st) : run states = .ok (product states) :=
+  run_eq_product_of_good states hne (fun st h => good_of_fresh st (hfresh st h))
+
+/-- With pairwise distinct names it does not matter which variable wins a name clash. -/
+theorem productOuterWins_eq_product (states : List State)
+    (hnd : (states.map (fun st => st.name)).Nodup) : productOuterWins states = product states := by
+  induction states with
+  | nil => rfl
+  | cons st rest ih =>
+    simp only [List.map_cons, List.nodup_cons] at hnd
+    simp only [productOuterWins, product, ← ih hnd.2]
+    apply flatMap_congr_mem
+    intro v _
+    apply List.map_congr_left
+    intro c hc
+    have : Ctx.contains c st.name = false := by
+      cases h : Ctx.contains c st.name with
+      | false => rfl
+      | true => exact absurd (contains_productOuterWins rest c st.name hc h) hnd.1
+    simp [this]
+
+theorem run_eq_productOuterWins (states : List State) (hne : states ≠ [])
+    (hfresh : ∀ st ∈ states, Fresh st) (hnd : (states.map (fun st => st.name)).Nodup) :
+    run states = .ok (productOuterWins states) := by
+  rw [productOuterWins_eq_product states hnd]
+  exact run_eq_product states hne hfresh
+
+/-- The number of iterations is the product of the domain sizes. -/
+theorem product_length (states : List State) :
+    (product states).length =
+      (states.map (fun st => (domain st).length)).foldl (· * ·) 1 := by
+  induction states with
+  | nil => rfl
+  | cons st rest ih =>
+    rw [product_length_cons, ih, List.map_cons, List.foldl_cons, foldl_mul _ (1 * _), Nat.one_mul]
+
+/-- An empty domain empties the whole product. -/
+theorem product_eq_nil_of_domain_nil (states : List State)
+    (h : ∃ st ∈ states, domain st = []) : product states = [] := by
+  induction states with
+  | nil => obtain ⟨_, hm, _⟩ := h; cases hm
+  | cons st rest ih =>
+    obtain ⟨t, hm, ht⟩ := h
+    rcases List.mem_cons.mp hm with rfl | hm
+    · simp [product, ht]
+    · simp [product, ih ⟨t, hm, ht⟩]
+
+/-- Conversely the product of non-empty domains is non-empty. -/
+theorem product_eq_nil_iff (states : List State) :
+    product states = [] ↔ ∃ st ∈ states, domain st = [] := by
+  constructor
+  · intro h
+    induction states with
+    | nil => simp [product] at h
+    | cons st rest ih =>
+      have hl := product_length_cons st rest
+      rw [h, List.length_nil] at hl
+      rcases Nat.mul_eq_zero.mp hl.symm with h0 | h0
+      · exact ⟨st, List.mem_cons_self, List.length_eq_zero_iff.mp h0⟩
+      · obtain ⟨t, hm, ht⟩ := ih (List.length_eq_zero_iff.mp h0)
+        exact ⟨t, List.mem_cons_of_mem _ hm, ht⟩
+  · exact product_eq_nil_of_domain_nil states
+
+/-- The machine performs exactly `∏ |domain|` iterations. -/
+theorem run_length (states : List State) (hne : states ≠ [])
+    (hfresh : ∀ st ∈ states, Fresh st) :
+    ∃ cs, run states = .ok cs ∧
+      cs.length = (states.map (fun st => (domain st).length)).foldl (· * ·) 1 :=
+  ⟨product states, run_eq_product states hne hfresh, product_length states⟩
+
+/-- Non-vacuity: a concrete two-state list satisfies the hypotheses. -/
+example :
+    run [mkRange "i" 1 2, mkList "x" [.null, .bool true]] =
+      .ok (product [mkRange "i" 1 2, mkList "x" [.null, .bool true]]) := by
+  apply run_eq_product
+  · simp
+  · intro st hst
+    simp only [List.mem_cons, List.not_mem_nil, or_false] at hst
+    rcases hst with rfl | rfl
+    · apply Fresh.range <;> simp only [i64Min, i64Max] <;> omega
+    · apply Fresh.list
+      · simp
+      · simp only [i64Max, List.length_cons, List.length_nil]; omega
+
+end Dmn.Iter
+
+namespace Dmn.Eval
+
+/-- States tagged with strictly increasing declaration positions are already in declared order. -/
+theorem foldr_insertByPos_of_sorted (ts : List (Nat × Iter.State))
+    (h : ts.Pairwise (fun x y => x.1 < y.1)) : ts.foldr insertByPos [] = ts :=
+  Iter.insert_sorted insertByPos (fun _ => rfl) (fun _ _ _ => rfl) ts h
+
+theorem mem_insertByPos (x y : Nat × Iter.State) (ys : List (Nat × Iter.State)) :
+    y ∈ insertByPos x ys ↔ y = x ∨ y ∈ ys := by
+  induction ys with
+  | nil => simp [insertByPos]
+  | cons z zs ih =>
+    simp only [insertByPos]
+    split
+    · simp
+    · simp only [List.mem_cons, ih]
+      constructor
+      · rintro (h | h | h)
+        · exact Or.inr (Or.inl h)
+        · exact Or.inl h
+        · exact Or.inr (Or.inr h)
+      · rintro (h | h | h)
+        · exact Or.inr (Or.inl h)
+        · exact Or.inl h
+        · exact Or.inr (Or.inr h)
+
+/-- The code's iteration (`FeelIterator::run` on the states as added) agrees with the FEEL
+semantics (`Iter.product` in declaration order) on states that are added in declaration order. -/
+theorem code_iter_eq_spec_iter (ts : List (Nat × Iter.State)) (hne : ts ≠ [])
+    (hfresh : ∀ t ∈ ts, Iter.Fresh t.2) (hord : ts.foldr insertByPos [] = ts) :
+    Variant.code.iter ts = Variant.spec.iter ts := by
+  simp only [Variant.code, Variant.spec, hord]
+  apply Iter.run_eq_product
+  · cases ts with
+    | nil => exact absurd rfl hne
+    | cons _ _ => simp
+  · intro st hst
+    obtain ⟨t, ht, rfl⟩ := List.mem_map.mp hst
+    exact hfresh t ht
+
+theorem code_iter_eq_spec_iter_of_sorted (ts : List (Nat × Iter.State)) (hne : ts ≠ [])
+    (hfresh : ∀ t ∈ ts, Iter.Fresh t.2) (hord : ts.Pairwise (fun x y => x.1 < y.1)) :
+    Variant.code.iter ts = Variant.spec.iter ts :=
+  code_iter_eq_spec_iter ts hne hfresh (foldr_insertByPos_of_sorted ts hord)
+
+/-- Independently of the order in which the states were added, the machine run on the states
+in declaration order is the specification. -/
+theorem declaredOrder_iter_eq_spec_iter (ts : List (Nat × Iter.State)) (hne : ts ≠ [])
+    (hfresh : ∀ t ∈ ts, Iter.Fresh t.2) :
+    Variant.declaredOrder.iter ts = Variant.spec.iter ts := by
+  have hmem : ∀ (l : List (Nat × Iter.State)) (y : Nat × Iter.State),
+      y ∈ l.foldr insertByPos [] ↔ y ∈ l := by
+    intro l y
+    induction l with
+    | nil => simp
+    | cons x xs ih => rw [List.foldr_cons, mem_insertByPos, ih, List.mem_cons]
+  simp only [Variant.declaredOrder, Variant.spec]
+  apply Iter.run_eq_product
+  · cases ts with
+    | nil => exact absurd rfl hne
+    | cons t rest =>
+      intro h
+      have : t ∈ (t :: rest).foldr insertByPos [] := (hmem _ t).mpr List.mem_cons_self
+      rw [List.map_eq_nil_iff.mp h] at this
+      cases this
+  · intro st hst
+    obtain ⟨t, ht, rfl⟩ := List.mem_map.mp hst
+    exact hfresh t ((hmem ts t).mp ht)
+
+end Dmn.Eval
+
